@@ -16,11 +16,56 @@ Definition model_obs (c : case) : obs := run (c_input c).
 Definition step_eqb (a b : bool * list series) : bool :=
   Bool.eqb (fst a) (fst b) && same_series (snd a) (snd b)
   && Nat.eqb (length (snd a)) (length (snd b)).
-Definition agrees (c : case) : bool := list_eqb step_eqb (model_obs c) (c_obs c).
+
+(* Go processes the groups of a batch in the order of a map iteration, and on an F5a
+   collision the outcome depends on that order.  So the implementation's observations
+   are JUDGED: they must be what the model produces for SOME order of the groups in
+   every batch.  The set of model states compatible with the observations so far is
+   carried along (states with the same registry content, groups included, are merged). *)
+Fixpoint insert_all (x : N) (l : list N) : list (list N) :=
+  match l with
+  | [] => [[x]]
+  | y :: r => (x :: l) :: map (cons y) (insert_all x r)
+  end.
+Fixpoint perms (l : list N) : list (list N) :=
+  match l with
+  | [] => [[]]
+  | x :: r => flat_map (insert_all x) (perms r)
+  end.
+
+Definition gseries (st : state) : list series :=
+  flat_map (fun nc => map (fun row => (snd (snd row) + 100 * kind_code (c_kind (snd nc)), fst nc,
+                                       shown_labels (c_names (snd nc)) (fst row), (fst (snd row), @nil N)))
+                          (c_rows (snd nc))) (st_vault st)
+  ++ flat_map (gather_vec KCounter) (st_counters st)
+  ++ flat_map (gather_vec KGauge) (st_gauges st)
+  ++ flat_map (gather_vec KHistogram) (st_histograms st).
+Definition state_sim (a b : state) : bool := same_series (gseries a) (gseries b).
+Definition add_state (s : state) (l : list state) : list state :=
+  if existsb (state_sim s) l then l else s :: l.
+
+Definition hook_batch_any (st : state) (hook : N) (written : list op) : list (state * bool) :=
+  let ops := map shortcut written in
+  map (fun gs => send_batch_ordered gs st hook ops) (perms (groups_of ops [])).
+
+Fixpoint agrees_from (sts : list state) (bs : list batch) (os : obs) : bool :=
+  match bs, os with
+  | [], [] => true
+  | (h, ops) :: bs', o :: os' =>
+      let next := fold_left (fun acc st =>
+                    fold_left (fun acc2 r => if step_eqb (snd r, gather (fst r)) o then add_state (fst r) acc2 else acc2)
+                              (hook_batch_any st h ops) acc) sts [] in
+      match next with
+      | [] => false
+      | _ => agrees_from next bs' os'
+      end
+  | _, _ => false
+  end.
+Definition agrees (c : case) : bool := agrees_from [init_state] (c_input c) (c_obs c).
 
 (* a judged case must be in the domain (the harness's generator claims it is) *)
 Definition mismatches (cs : list case) : list N :=
-  indices_where (fun c => c_judged c && negb (in_domain (c_input c) && agrees c)) cs.
+  indices_where (fun c => if c_judged c then negb (if in_domain (c_input c) then agrees c else false) else false) cs.
 Definition spec_violations (cs : list case) : list N :=
-  indices_where (fun c => c_judged c && negb (P (c_input c) (c_obs c))) cs.
+  indices_where (fun c => if c_judged c then negb (P (c_input c) (c_obs c)) else false) cs.
 Definition trigger_F5a (cs : list case) : list N := indices_where (fun c => T_F5a (c_input c)) cs.
